@@ -248,7 +248,7 @@ func (s *c10) Gen(r *kit.Rng) (kit.Op, bool) {
 			s.lastTxs = s.genBlock(r)
 		}
 		txs, name := orderTxs(r, s.lastTxs)
-		return kit.Op{K: "scan", S: txsHex(txs), N: []int64{int64(r.Intn(3))}, D: kit.Hex([]byte(name))}, true
+		return kit.Op{K: "scan", S: txsHex(txs), N: []int64{int64(r.Intn(3)), int64(r.Intn(len(txs)+2) - 1)}, D: kit.Hex([]byte(name))}, true
 	}
 }
 
@@ -291,7 +291,11 @@ func (s *c10) Apply(o kit.Op) *kit.Violation {
 		if len(txs) == 0 {
 			return nil
 		}
-		return s.scan(txs, int(o.Arg(0)), string(o.Data()))
+		pre := -1
+		if len(o.N) > 1 {
+			pre = int(o.Arg(1))
+		}
+		return s.scan(txs, int(o.Arg(0)), string(o.Data()), pre)
 	}
 	return nil
 }
@@ -421,30 +425,41 @@ func cloneMsg(m *wire.MsgFilterLoad) *wire.MsgFilterLoad {
 	return wire.NewMsgFilterLoad(append([]byte(nil), m.Filter...), m.HashFuncs, m.Tweak, m.Flags)
 }
 
-func (s *c10) scan(txs []*wire.MsgTx, api int, order string) *kit.Violation {
+func (s *c10) scan(txs []*wire.MsgTx, api int, order string, prefetch int) *kit.Violation {
 	blk := wire.NewMsgBlock(&wire.BlockHeader{Version: 1, Bits: 0x207fffff})
 	for _, t := range txs {
 		_ = blk.AddTransaction(t)
 	}
 	L, rounds := s.exactClosure(txs, s.mod.Flags)
 	// the three scanning entry points, each on its own identical filter
+	// ONE wrapped block serves all scans of this step (a scan must not leave
+	// anything behind on the Block / Tx wrappers that a later scan with
+	// another filter could pick up); some of its transactions are fetched
+	// beforehand, in another order than the scan will visit them
+	wb := bchutil.NewBlock(blk)
+	if prefetch >= 0 && prefetch < len(txs) {
+		if t, err := wb.Tx(prefetch); err == nil {
+			t.Hash()
+		}
+		s.st.Probe("scan-of-partly-fetched-block")
+	}
 	run := func(which int, msg *wire.MsgFilterLoad) []int {
 		f := bloom.LoadFilter(msg)
 		var idx []int
 		switch which {
 		case 0:
-			for i, ok := range bloom.GetMatchedIndices(bchutil.NewBlock(blk), f) {
+			for i, ok := range bloom.GetMatchedIndices(wb, f) {
 				if ok {
 					idx = append(idx, i)
 				}
 			}
 		case 1:
-			_, ids := bloom.NewMerkleBlock(bchutil.NewBlock(blk), f)
+			_, ids := bloom.NewMerkleBlock(wb, f)
 			for _, i := range ids {
 				idx = append(idx, int(i))
 			}
 		default:
-			_, ids := merkleblock.NewMerkleBlockWithFilter(bchutil.NewBlock(blk), f)
+			_, ids := merkleblock.NewMerkleBlockWithFilter(wb, f)
 			for _, i := range ids {
 				idx = append(idx, int(i))
 			}
@@ -495,6 +510,16 @@ func (s *c10) scan(txs []*wire.MsgTx, api int, order string) *kit.Violation {
 		if !L[i] {
 			s.st.Probe("false-positive-reported")
 		}
+	}
+	// the same wrapped block under an EMPTY filter of the same shape: nothing
+	// may be reported (an empty BIP37 filter with at least one hash function
+	// contains nothing), whatever earlier scans did with this wrapper
+	if pre.HashFuncs > 0 {
+		empty := wire.NewMsgFilterLoad(make([]byte, len(pre.Bits)), pre.HashFuncs, pre.Tweak, wire.BloomUpdateType(pre.Flags))
+		if got := run((api+1)%3, empty); len(got) != 0 {
+			return kit.V("scan:empty-filter-reports-transactions", "after scans with a populated filter, scanning the same wrapped block with an empty filter reported %v", got)
+		}
+		s.st.Probe("rescan-with-empty-filter")
 	}
 	// monotonicity and model sync: bits only grow; adopt them in the model
 	// (the scan's exact bit result is order- and algorithm-dependent; what is
